@@ -24,15 +24,7 @@ Print Assumptions C08_average_is_mean_over_present.
 Corollary C08_single_conformation_identity : forall (s : state R) dst src fresh, dst <> src ->
   let s' := step (iadd_all (step s (OClone dst src)) dst [(src, fresh)]) (ODiv dst 1) in
   g_pka (s' dst) = g_pka (s src) /\ g_vol (s' dst) = g_vol (s src) /\ g_loc (s' dst) = g_loc (s src).
-Proof.
-  intros s dst src fresh Hne. cbv zeta.
-  assert (H1 : ~ In dst (map fst [(src, fresh)])) by (cbn; intros [E|[]]; congruence).
-  assert (H2 : [(src, fresh)] <> []) by discriminate.
-  destruct (average_is_mean_over_present s dst src [(src, fresh)] H1) as (A & B & C & _).
-  cbn [length INR] in A, B, C. rewrite A, B, C. rewrite !mean_of_cons, !mean_of_nil.
-  assert (E : step s (OClone dst src) src = s src) by (cbn [step]; apply upd_other; congruence). rewrite E.
-  repeat split; field.
-Qed.
+Proof. exact single_conformation_identity. Qed.
 Theorem C08_dividing_by_more_than_the_summands_refuted :
   exists (s : state R), consistent (s 1%nat) /\ g_dirty (s 1%nat) = false /\
     ~ consistent (step (step (step s (OClone 0 1)) (OIadd 0 1 [])) (ODiv 0 2) 0%nat).
